@@ -162,6 +162,8 @@ def main():
             "deciding monitor observed only %d distinct non-trivial cases (< %d)"
             % (distinct, min_distinct)
         )
+    if hasattr(mod, "finalize") and not args.replay and dumps:
+        mod.finalize(m, tier)
     for key in getattr(mod, "REQUIRED_MONITORS", ()):
         if not args.replay and not m["mon"].get(key):
             m["inconclusive"].append("monitor %r observed no events" % key)
